@@ -7,6 +7,8 @@ CONSTANTS
   USER_REMOVES_ENTRIES = FALSE
   USER_RENAMES = TRUE
   RECHECK_ON_RENAME = TRUE
+  ENTRIES_ARE_DIRS = FALSE
+  RECHECK_DIRS = TRUE
   FIX_BYUSER = TRUE
 INVARIANTS FdsMatch ListOK AllGone Released CreateOnce Covered
 CHECK_DEADLOCK FALSE
